@@ -64,6 +64,9 @@ def cells(tier):
                     'kinds': ['mapping']})
         out.append({'kind': 'real', 'backend': 'dict'})
         out.append({'kind': 'shared', 'backend': 'dict', 'msgs': 3})
+        out.append({'kind': 'realrcpt', 'backend': 'dict', 'n': 3, 'pipe': 1})
+        out.append({'kind': 'realrcpt', 'backend': 'dict', 'n': 2, 'pipe': 0,
+                    'lmtp': 1})
         out.append({'backend': 'dict', 'n': 2, 'rounds': 2, 'store_pool': 1,
                     'opts': ['ok', 'permA', 'tempA'],
                     'kinds': ['mapping', 'transient', 'permanent']})
@@ -159,6 +162,63 @@ def run_real(cell):
     api.prove(body in text, 'original-body-not-embedded', **info)
 
 
+def run_realrcpt(cell):
+    """the real SMTP / LMTP relay client end to end: every RCPT is answered
+    250 or one of two permanent replies; one bounce per distinct reply,
+    naming exactly the recipients that were given it"""
+    import gevent
+    from slimta.queue import Queue
+    from slimta.queue.dict import DictStorage
+    from slimta.relay.smtp.static import StaticSmtpRelay, StaticLmtpRelay
+    from . import netcommon as nc
+    import slimta.smtp.client as sc
+    sc.wait_read = nc.fake_wait_read
+    qc.fresh_hub()
+    qc.patch_env()
+    nc.reset()
+    menu = [('250', 'ok'), ('550', '5.1.1 User unknown'),
+            ('552', '5.2.2 Mailbox full')]
+    n = cell['n']
+    rc = ['r%d@x' % i for i in range(n)]
+    picks = [api.choice('rcpt%d' % i, 3) for i in range(n)]
+    over = {}
+    for i, k in enumerate(picks):
+        over[('RCPT', i)] = ('reply', menu[k][0], [menu[k][1]])
+    ext = ('PIPELINING',) if cell.get('pipe') else ()
+    lmtp = bool(cell.get('lmtp'))
+
+    def creator(address):
+        p = nc.ScriptedPeer(nc.ok_script(ext, over), lmtp=lmtp)
+        return p.start()
+    relay = (StaticLmtpRelay if lmtp else StaticSmtpRelay)(
+        'mx.example', 25, socket_creator=creator, ehlo_as='me',
+        context=object(), connect_timeout=10, command_timeout=10,
+        data_timeout=20)
+    calls = []
+
+    def factory(envelope, reply):
+        calls.append((sorted(envelope.recipients), reply.code, reply.message))
+        return None
+    queue = Queue(DictStorage(), relay, backoff=lambda e, a: None,
+                  bounce_factory=factory)
+    queue.start()
+    qc.run_until_quiescent()
+    queue.enqueue(qc.make_envelope('m1', 'sender@z', rc))
+    qc.run_until_quiescent()
+    queue.kill()
+    want = {}
+    for r, k in zip(rc, picks):
+        if k:
+            want.setdefault(menu[k], []).append(r)
+    want = sorted((sorted(rs), code, text) for (code, text), rs
+                  in want.items())
+    api.observe('bounces', len(calls))
+    info = dict(kind='realrcpt', picks=picks, lmtp=lmtp)
+    api.prove(sorted(calls) == want,
+              'bounce-groups-differ-from-failure-replies',
+              got=sorted(calls), expected=want, **info)
+
+
 def run_shared(cell):
     """a relay that reports failures with Reply objects it keeps (module
     constants, a cache): several messages fail with the same object, each
@@ -225,6 +285,8 @@ def run(cell):
         return run_real(cell)
     if cell.get('kind') == 'shared':
         return run_shared(cell)
+    if cell.get('kind') == 'realrcpt':
+        return run_realrcpt(cell)
     h = qhist.run_history(cell)
     rcpts = qhist.RCPTS[:cell['n']]
     info = dict(backend=cell['backend'])
